@@ -65,7 +65,38 @@ def constants(repo):
     for t in ("length == 0", "block_size == 0", "len(data) == 0", "count > 0"):
         if t not in ifs:
             raise RuntimeError("test `%s` not found in _check_file" % t)
-    return {"chunk": chunk[0], "min_block": min_block[0]}
+    # algorithm selection: the client's list is walked in order, the server's table only consulted
+    fors = [n for n in ast.walk(fn) if isinstance(n, ast.For)]
+    if len(fors) != 1:
+        raise RuntimeError("expected one for-loop (algorithm selection) in _check_file, found %d" % len(fors))
+    lp = fors[0]
+    shape = (ast.unparse(lp.target), ast.unparse(lp.iter), [ast.unparse(x) for x in lp.body], bool(lp.orelse))
+    want = ("x", "alg_list", ["if x in _hash_class:\n    algname = x\n    alg = _hash_class[x]\n    break"], True)
+    if shape != want:
+        raise RuntimeError("algorithm selection loop of _check_file changed: %r" % (shape,))
+    return {"chunk": chunk[0], "min_block": min_block[0], "supported": _supported(repo)}
+
+
+ALG_IDS = {"md5": 1, "sha1": 2}
+
+
+def _supported(repo):
+    """Keys of the module-level _hash_class table, in source order."""
+    tree = ast.parse(open(os.path.join(repo, "paramiko", "sftp_server.py")).read())
+    found = []
+    for st in tree.body:
+        if isinstance(st, ast.Assign) and len(st.targets) == 1 and isinstance(st.targets[0], ast.Name) \
+                and st.targets[0].id == "_hash_class":
+            if not isinstance(st.value, ast.Dict) or not all(isinstance(k, ast.Constant) and isinstance(k.value, str)
+                                                             for k in st.value.keys):
+                raise RuntimeError("_hash_class is not a literal dict of names")
+            found.append([k.value for k in st.value.keys])
+    if len(found) != 1:
+        raise RuntimeError("expected one module-level _hash_class table, found %d" % len(found))
+    for k in found[0]:
+        if k not in ALG_IDS:
+            raise RuntimeError("hash name %r is not known to the model's numbering" % k)
+    return found[0]
 
 
 def generate(repo):
@@ -74,5 +105,7 @@ def generate(repo):
             "From Coq Require Import ZArith.\nOpen Scope Z_scope.\n\n"
             "Definition gen_chunk : Z := %d.       (* chunklen = min(blocklen - count, N) *)\n"
             "Definition gen_min_block : Z := %d.   (* if block_size < N: \"Block size too small\" *)\n"
-            % (c["chunk"], c["min_block"]))
+            "(* names of _hash_class in source order; md5 = 1, sha1 = 2 *)\n"
+            "Definition gen_supported : list Z := (%s)%%list.\n"
+            % (c["chunk"], c["min_block"], " :: ".join(str(ALG_IDS[k]) for k in c["supported"]) + " :: nil"))
     return {"C32_gen.v": text}
